@@ -334,15 +334,36 @@ func init() {
 		}, modifies: func(fr *Frame, cc *ssa.CallCommon) []string { return []string{fr.vc.arrComp(types.Typ[types.Uint8])} }, doc: "big-endian encode"}
 	}
 	nativeCalls["sync.(*Pool).Get"] = &nativeCall{exec: poolGet, modifies: func(fr *Frame, cc *ssa.CallCommon) []string {
-		return []string{"$alloc"}
+		return []string{"$alloc", fr.vc.ownedComp(), fr.vc.arrComp(types.Typ[types.Uint8])}
 	}, doc: "sync.Pool.Get returns an object owned exclusively by the caller"}
-	nativeCalls["sync.(*Pool).Put"] = &nativeCall{exec: poolPut, modifies: func(*Frame, *ssa.CallCommon) []string { return nil }, doc: "sync.Pool.Put"}
+	nativeCalls["sync.(*Pool).Put"] = &nativeCall{exec: poolPut, modifies: func(fr *Frame, cc *ssa.CallCommon) []string { return []string{fr.vc.ownedComp()} }, doc: "sync.Pool.Put"}
+}
+
+// rdcanon / wrcanon map an io.Reader / io.Writer interface value to the identity of the underlying
+// stream: a *bufio.ReadWriter reads through its embedded Reader and writes through its embedded Writer.
+func (vc *VC) canon(kind, h string) string {
+	if !vc.declared["rdcanon"] {
+		vc.declared["rdcanon"] = true
+		vc.decls = append(vc.decls, "(declare-fun rdcanon (Int) Int)", "(declare-fun wrcanon (Int) Int)")
+	}
+	// a boxed *bufio.Reader / *bufio.Writer is its own stream identity
+	if kind == "rd" && strings.HasPrefix(h, "(box_Pbufio_Reader ") {
+		return h
+	}
+	if kind == "wr" && strings.HasPrefix(h, "(box_Pbufio_Writer ") {
+		return h
+	}
+	if vc.isBoxedStream(kind, h) {
+		return h
+	}
+	return fmt.Sprintf("(%scanon %s)", kind, h)
 }
 
 func ioReadAtLeast(fr *Frame, cc *ssa.CallCommon, st *State, pos token.Pos) []Term {
 	vc := fr.vc
 	vc.callees["io.ReadAtLeast / io.ReadFull (trusted stream contract)"] = true
 	r := fr.val(cc.Args[0])
+	r.S = vc.canon("rd", r.S)
 	buf := fr.val(cc.Args[1])
 	blen := fmt.Sprintf("(sl_len %s)", buf.S)
 	min := blen
@@ -482,6 +503,8 @@ func poolGet(fr *Frame, cc *ssa.CallCommon, st *State, pos token.Pos) []Term {
 		v := vc.freshVal("poolobj", t, fr.curReach)
 		vc.set(st, comp, fmt.Sprintf("(store %s %s %s)", vc.get(st, comp), r, v.S))
 		payload = r
+		oc := vc.ownedComp()
+		vc.set(st, oc, fmt.Sprintf("(store %s %s true)", vc.get(st, oc), r))
 	default:
 		vc.unsupportedf("pool kind %s", kind)
 		return []Term{vc.freshVal("poolobj", anyT, fr.curReach)}
@@ -494,6 +517,13 @@ func poolGet(fr *Frame, cc *ssa.CallCommon, st *State, pos token.Pos) []Term {
 }
 
 func poolPut(fr *Frame, cc *ssa.CallCommon, st *State, pos token.Pos) []Term {
+	vc := fr.vc
+	if mi, ok := cc.Args[1].(*ssa.MakeInterface); ok && vc.isPooledPtr(mi.X.Type()) {
+		p := fr.val(mi.X).S
+		fr.requireOwned(p, "Put of an object that is not owned (double Put)", pos, st)
+		oc := vc.ownedComp()
+		vc.set(st, oc, fmt.Sprintf("(store %s %s false)", vc.get(st, oc), p))
+	}
 	return nil
 }
 
@@ -534,7 +564,7 @@ func init() {
 	}, modifies: wm, doc: "bufio.Writer.Write appends to the output stream"}
 	nativeCalls["bufio.(*Writer).WriteString"] = nativeCalls["bufio.(*Writer).Write"]
 	nativeCalls["io.Writer.Write"] = &nativeCall{exec: func(fr *Frame, cc *ssa.CallCommon, st *State, pos token.Pos) []Term {
-		return writerWrite(fr, fr.val(cc.Value).S, fr.byteSrc(cc.Args[0], st), st, pos, true)
+		return writerWrite(fr, fr.vc.canon("wr", fr.val(cc.Value).S), fr.byteSrc(cc.Args[0], st), st, pos, true)
 	}, modifies: wm, doc: "io.Writer.Write appends to the output stream"}
 	nativeCalls["bufio.(*Writer).Flush"] = &nativeCall{exec: writerFlush, modifies: wm, doc: "bufio.Writer.Flush"}
 	nativeCalls["encoding/binary.Write"] = &nativeCall{exec: binaryWrite, modifies: wm, doc: "binary.Write of a fixed-size unsigned integer"}
@@ -544,7 +574,7 @@ func (fr *Frame) writerID(v ssa.Value) string {
 	vc := fr.vc
 	t := fr.val(v)
 	box, _ := vc.boxFns(v.Type())
-	return fmt.Sprintf("(%s %s)", box, t.S)
+	return vc.canon("wr", fmt.Sprintf("(%s %s)", box, t.S))
 }
 
 // byteSrc describes the bytes of a []byte or string argument: (array, offset, length).
@@ -569,7 +599,7 @@ func writerWrite(fr *Frame, w string, src byteSrc, st *State, pos token.Pos, ret
 	vc.assumeIf(fr.curReach, fmt.Sprintf("(<= 0 %s)", oldLen))
 	errv := vc.fresh("werr")
 	vc.declare(errv, "Int")
-	vc.assumeIf(fr.curReach, fmt.Sprintf("(and (<= 0 %s) (=> faultfree (= %s 0)))", errv, errv))
+	vc.assumeIf(fr.curReach, fmt.Sprintf("(and (<= 0 %s) (=> faultfree (= %s 0)) (=> (not (= %s 0)) (is_io_error %s)))", errv, errv, errv, errv))
 	vc.needFaultfree()
 	oldArr := fmt.Sprintf("(select %s %s)", vc.get(st, wr), w)
 	a := vc.fresh("wbuf")
@@ -599,7 +629,7 @@ func writerFlush(fr *Frame, cc *ssa.CallCommon, st *State, pos token.Pos) []Term
 	errv := vc.fresh("ferr")
 	vc.declare(errv, "Int")
 	vc.needFaultfree()
-	vc.assumeIf(fr.curReach, fmt.Sprintf("(and (<= 0 %s) (=> faultfree (= %s 0)))", errv, errv))
+	vc.assumeIf(fr.curReach, fmt.Sprintf("(and (<= 0 %s) (=> faultfree (= %s 0)) (=> (not (= %s 0)) (is_io_error %s)))", errv, errv, errv, errv))
 	cur := vc.get(st, wf)
 	vc.set(st, wf, fmt.Sprintf("(ite (= %s 0) (store %s %s (select %s %s)) %s)", errv, cur, w, vc.get(st, wl), w, cur))
 	return []Term{{errv, "Int", types.Universe.Lookup("error").Type()}}
@@ -626,6 +656,131 @@ func binaryWrite(fr *Frame, cc *ssa.CallCommon, st *State, pos token.Pos) []Term
 		arr = fmt.Sprintf("(store %s %d (mod (div %s %s) 256))", arr, i, v.S, pow2(8*(nb-1-i)))
 	}
 	vc.define(tmp, "(Array Int Int)", arr)
-	res := writerWrite(fr, fr.val(cc.Args[0]).S, byteSrc{tmp, "0", fmt.Sprint(nb)}, st, pos, false)
+	res := writerWrite(fr, vc.canon("wr", fr.val(cc.Args[0]).S), byteSrc{tmp, "0", fmt.Sprint(nb)}, st, pos, false)
 	return []Term{res[1]}
+}
+
+func init() {
+	nativeCalls["bufio.(*Reader).Discard"] = &nativeCall{exec: readerDiscard, modifies: func(fr *Frame, cc *ssa.CallCommon) []string {
+		return []string{fr.vc.rdposComp()}
+	}, doc: "bufio.Reader.Discard(n) skips n bytes or fails at the end of the stream"}
+	nativeCalls["encoding/binary.Read"] = &nativeCall{exec: binaryRead, modifies: func(fr *Frame, cc *ssa.CallCommon) []string {
+		return append([]string{fr.vc.rdposComp()}, fr.compsOfAddrArg(cc.Args[2])...)
+	}, doc: "binary.Read of a fixed-size unsigned integer through a pointer"}
+}
+
+func (fr *Frame) compsOfAddrArg(v ssa.Value) []string {
+	if mi, ok := v.(*ssa.MakeInterface); ok {
+		return fr.compsOfAddr(mi.X)
+	}
+	return nil
+}
+
+func (fr *Frame) readerID(v ssa.Value) string {
+	vc := fr.vc
+	t := fr.val(v)
+	box, _ := vc.boxFns(v.Type())
+	return vc.canon("rd", fmt.Sprintf("(%s %s)", box, t.S))
+}
+
+func readerDiscard(fr *Frame, cc *ssa.CallCommon, st *State, pos token.Pos) []Term {
+	vc := fr.vc
+	r := fr.readerID(cc.Args[0])
+	k := fr.val(cc.Args[1])
+	rp := vc.rdposComp()
+	p0 := vc.fresh("rdpos")
+	vc.define(p0, "Int", fmt.Sprintf("(select %s %s)", vc.get(st, rp), r))
+	vc.oblige("discard", fr.autoTags(), fr.curReach, fmt.Sprintf("(>= %s 0)", k.S), "bufio.Reader.Discard is called with a non-negative count", pos, nil)
+	avail := fmt.Sprintf("(- (rd_len %s) %s)", r, p0)
+	n := vc.fresh("dn")
+	vc.declare(n, "Int")
+	errv := vc.fresh("derr")
+	vc.declare(errv, "Int")
+	vc.assumeIf(fr.curReach, fmt.Sprintf("(and (<= 0 %s) (<= %s (rd_len %s)) (ite (>= %s %s) (and (= %s 0) (= %s %s)) (and (not (= %s 0)) (is_io_error %s) (= %s (ite (< %s 0) 0 %s)))))",
+		p0, p0, r, avail, k.S, errv, n, k.S, errv, errv, n, avail, avail))
+	vc.set(st, rp, fmt.Sprintf("(store %s %s (+ %s %s))", vc.get(st, rp), r, p0, n))
+	return []Term{{n, "Int", types.Typ[types.Int]}, {errv, "Int", types.Universe.Lookup("error").Type()}}
+}
+
+// binaryRead: binary.Read(r, binary.BigEndian, &x) for x of type uint16/uint32/uint64.
+func binaryRead(fr *Frame, cc *ssa.CallCommon, st *State, pos token.Pos) []Term {
+	vc := fr.vc
+	errT := types.Universe.Lookup("error").Type()
+	mi, ok := cc.Args[2].(*ssa.MakeInterface)
+	if !ok {
+		vc.unsupportedf("binary.Read into a value of unknown static type at %s", vc.posOf(pos))
+		return []Term{vc.freshVal("err", errT, fr.curReach)}
+	}
+	pt, ok := mi.X.Type().Underlying().(*types.Pointer)
+	if !ok {
+		vc.unsupportedf("binary.Read into non-pointer")
+		return []Term{vc.freshVal("err", errT, fr.curReach)}
+	}
+	w, _, ok2 := intInfo(pt.Elem())
+	if !ok2 {
+		vc.unsupportedf("binary.Read into %s", pt.Elem())
+		return []Term{vc.freshVal("err", errT, fr.curReach)}
+	}
+	nb := w / 8
+	r := vc.canon("rd", fr.val(cc.Args[0]).S)
+	rp := vc.rdposComp()
+	p0 := vc.fresh("rdpos")
+	vc.define(p0, "Int", fmt.Sprintf("(select %s %s)", vc.get(st, rp), r))
+	avail := fmt.Sprintf("(- (rd_len %s) %s)", r, p0)
+	errv := vc.fresh("brerr")
+	vc.declare(errv, "Int")
+	okc := fmt.Sprintf("(>= %s %d)", avail, nb)
+	vc.assumeIf(fr.curReach, fmt.Sprintf("(and (<= 0 %s) (<= %s (rd_len %s)) (ite %s (= %s 0) (and (not (= %s 0)) (is_io_error %s))))", p0, p0, r, okc, errv, errv, errv))
+	var parts []string
+	for i := 0; i < nb; i++ {
+		parts = append(parts, fmt.Sprintf("(* %s (select (rd_data %s) (+ %s %d)))", pow2(8*(nb-1-i)), r, p0, i))
+	}
+	val := "(+ " + strings.Join(parts, " ") + ")"
+	lv := fr.lvalOf(mi.X)
+	old := vc.loadL(lv, st)
+	vc.assumeIf(fr.curReach, fmt.Sprintf("(forall ((j Int)) (! (and (<= 0 (select (rd_data %s) j)) (< (select (rd_data %s) j) 256)) :pattern ((select (rd_data %s) j))))", r, r, r))
+	vc.storeL(lv, fmt.Sprintf("(ite %s %s %s)", okc, val, old.S), st)
+	vc.set(st, rp, fmt.Sprintf("(store %s %s (ite %s (+ %s %d) (rd_len %s)))", vc.get(st, rp), r, okc, p0, nb, r))
+	return []Term{{errv, "Int", errT}}
+}
+
+// ---- ownership of pooled objects (C14) ----
+// $owned[p]: the pooled object p is currently owned by this goroutine (between Get and Put).
+// Every dereference, argument passing and return of a pointer of a pooled type requires ownership;
+// Put requires it and gives it up.
+
+func (vc *VC) ownedComp() string {
+	vc.comp("$owned", "(Array Int Bool)")
+	return "$owned"
+}
+
+// isPooledPtr reports whether t is a pointer to a struct type that some declared pool hands out.
+func (vc *VC) isPooledPtr(t types.Type) bool {
+	pt, ok := t.Underlying().(*types.Pointer)
+	if !ok {
+		return false
+	}
+	n, ok := pt.Elem().(*types.Named)
+	if !ok || n.Obj().Pkg() == nil {
+		return false
+	}
+	pkg := shortPkg(n.Obj().Pkg().Path())
+	for _, gs := range vc.db.Globals {
+		if gs.Pkg == pkg && gs.Kind == "pool:*"+n.Obj().Name() {
+			return true
+		}
+	}
+	return false
+}
+
+func (fr *Frame) ownTags() []string {
+	if fr.vc.spec != nil && contains(fr.vc.spec.Props, "C14") {
+		return []string{"C14"}
+	}
+	return []string{"C14-not-claimed-here"}
+}
+
+func (fr *Frame) requireOwned(p string, what string, pos token.Pos, st *State) {
+	vc := fr.vc
+	vc.oblige("ownership", fr.ownTags(), fr.curReach, fmt.Sprintf("(select %s %s)", vc.get(st, vc.ownedComp()), p), "pooled object is owned (not used after Put): "+what, pos, nil)
 }
